@@ -450,7 +450,11 @@ func RunSrvHistory(name string, cfg *SrvGenCfg, evs []SEv) (*Trace, error) {
 	if err != nil {
 		return t, err
 	}
-	t.Add("srv.new %s fwd=%s hook=%s %s", S(cfg.Srv.Default), B(cfg.Srv.Fwd), B(cfg.Srv.Hook), LS(cfg.Srv.VRFs))
+	if cfg.Srv.NoCheck {
+		t.Add("srv.new %s fwd=%s hook=%s %s check=0", S(cfg.Srv.Default), B(cfg.Srv.Fwd), B(cfg.Srv.Hook), LS(cfg.Srv.VRFs))
+	} else {
+		t.Add("srv.new %s fwd=%s hook=%s %s", S(cfg.Srv.Default), B(cfg.Srv.Fwd), B(cfg.Srv.Hook), LS(cfg.Srv.VRFs))
+	}
 	if err := h.ObsServer(t); err != nil {
 		return t, err
 	}
